@@ -133,6 +133,11 @@ def run(ctx):
         runs = e2e.cached_runs(ctx, e2e.standard_grid(ctx.seed, ctx.thorough), "std")
         runs.append(e2e.traced_run({"N": 2, "W": 2, "K": 2, "beta": 1.0, "lengths": [30], "limit": 2, "m": 1, "data_seed": 1, "rng_seed": 1, "joint": False}))
         # matrix-valued sparsity weights - symmetric, upper triangle only, different lower triangle - must reach the optimiser unchanged
+        # a sensor that reads a constant (a zero-variance channel in every cluster): what the optimiser receives must still be
+        # exactly the covariance of the cluster's windows
+        runs += e2e.cached_runs(ctx, [{"N": 3, "W": 1 + j % 2, "K": 2 + j % 2, "beta": 3.0, "lam": 0.11, "limit": 3, "m": 2, "biased": bool(j % 2), "eps": 0,
+                                       "joint": False, "lengths": [80], "data_seed": 1250 + j, "rng_seed": 1250 + j, "regimes": 2 + j % 2,
+                                       "dead_sensor": j % 3, "dead_value": [0.0, 7.5][j % 2], "scale": [1.0, 1e-3][j % 2]} for j in range(ctx.budget(3, 8))], "c12dead")
         runs += e2e.cached_runs(ctx, [{"N": N, "W": W, "K": 2, "beta": 2.0, "lam_matrix": kind, "limit": 2, "m": 2, "biased": bool(j % 2), "eps": 0,
                                        "joint": j % 3 == 2, "lengths": [40, 30][: 1 + (j % 3 == 2)], "data_seed": 1200 + j, "rng_seed": 1200 + j, "regimes": 2}
                                       for j, (N, W, kind) in enumerate([(2, 2, "sym"), (2, 2, "upper"), (1, 3, "asym"), (3, 1, "upper"), (2, 3, "asym")])], "c12lam")
